@@ -132,3 +132,14 @@ def define_err(d, rest):
     if r[0] != 0:
         return True
     return n in d and d[n] != r[1]
+
+
+def hdr_text(rest):
+    """The inside of '<...>' minus one trailing '/' (the empty-section mark), right-stripped."""
+    if rest[-1:] == '/':
+        return rest[:-1].rstrip()
+    return rest.rstrip()
+
+
+def lower_opt(x):
+    return None if x is None else x.lower()
